@@ -138,6 +138,24 @@ let ghist f l ops =
   List.iter (fun tok -> if !bad = "" then begin
     let (op, a, _) = split_op tok in
     let za = z_of_string a in
+    (* which slots will be destroyed: the ghost log of the regenerated pvDecCount (Gen_ArrLog), run on the state BEFORE the op *)
+    let target = (match op with
+      | 'b' -> if Z.leq (Z.of_string a) (zarith_of_z !c) then Some (Z.sub (zarith_of_z !c) (Z.of_string a)) else None
+      | 's' | 'S' -> if Z.lt (Z.of_string a) (zarith_of_z !c) then Some (Z.of_string a) else None
+      | 'c' | 'C' -> Some Z.zero
+      | _ -> None) in
+    let dlog = (match target with
+      | None -> "d-1:-1x0"
+      | Some t ->
+        (match Gen_ArrLog.pvDecCount seg cnt !segs !n !c (fun _ -> z_of_int 0) (z_of_int 0) (z_of_zarith t) with
+         | GenPrelude.Ok (((_, _), lg), gn) ->
+           let m = Z.to_int (zarith_of_z gn) / 2 in
+           if m = 0 then "d-1:-1x0" else begin
+             let ent k = zarith_of_z (lg (z_of_int k)) in
+             let hi = Z.pred (Z.add (ent 0) (ent 1)) and lo = ent (2 * (m - 1)) in
+             let tot = ref Z.zero in for k = 0 to m - 1 do tot := Z.add !tot (ent (2 * k + 1)) done;
+             Printf.sprintf "d%s:%sx%s" (Z.to_string lo) (Z.to_string hi) (Z.to_string !tot) end
+         | _ -> "dGEN-LOG-STUCK")) in
     (match op with
      | 'a' | 'e' -> for _ = 1 to int_of_string a do if !bad = "" then
                       (match Gen_ArrSqrt.coq_AddBackCrt seg alloc !segs !n !c with
@@ -162,8 +180,8 @@ let ghist f l ops =
       let addr = if Z.sign (zarith_of_z !c) = 0 then "-1" else
           (match Gen_ArrSqrt.pvGetItem seg !segs !n !c (z_of_zarith (Z.div (zarith_of_z !c) (Z.of_int 2))) with
            | GenPrelude.Ok a -> string_of_z a | _ -> "GEN-GETITEM-STUCK") in
-      Buffer.add_string b (Printf.sprintf "%s/%s/%s/%s/%s " (string_of_z !c) (string_of_z !n)
-                             (string_of_z (Gen_ArrSqrt.coq_GetCapacity idx !segs !n !c)) top addr) end end) ops;
+      Buffer.add_string b (Printf.sprintf "%s/%s/%s/%s/%s/%s " (string_of_z !c) (string_of_z !n)
+                             (string_of_z (Gen_ArrSqrt.coq_GetCapacity idx !segs !n !c)) top addr dlog) end end) ops;
   Buffer.contents b
 let () = iter_lines (fun line ->
   match words line with
